@@ -875,3 +875,137 @@ def _unbounded_check(case):
                 cl.add("ended_after_1024_steps")
         require(finite >= 1, "no finite slot", None, None)
     return Info(nontrivial=True, classes=sorted(cl) + ["width_%d" % case["width"]])
+
+
+# ------------------------------------------------------------------ a language model in half precision
+
+
+class _HalfLM(declm.HashLM):
+    """HashLM whose parameters and outputs are bfloat16 / float16 (a model run in reduced precision)."""
+
+    def __init__(self, spec, dtype):
+        import torch
+
+        super().__init__(spec)
+        self.half_dtype = dtype
+        self.scale = torch.nn.Parameter(torch.ones(1, dtype=dtype))
+
+    def calc_idx_log_probs(self, hist, prev, idx):
+        logits, cur = super().calc_idx_log_probs(hist, prev, idx)
+        return (logits.to(self.half_dtype) * self.scale), cur
+
+
+def _half_cases(tier):
+    base = _search_cases(tier, "any", batch_choices=(None, 1, 2))
+
+    @st.composite
+    def _s(draw):
+        case = draw(base)
+        case["half"] = draw(st.sampled_from(["bfloat16", "float16"]))
+        # (logits must be representable in half precision: undo the extreme-magnitude class)
+        case["lm"]["cond"] = [[max(-16, min(16, x)) for x in r] for r in case["lm"]["cond"]]
+        case.pop("extreme", None)
+        if case["max_iters"] is None:
+            case["max_iters"] = 4
+        case["max_iters"] = draw(st.sampled_from([case["max_iters"], 8, 14]))
+        case["width"] = min(case["width"], 6)
+        case["no_init"] = False
+        case.pop("cond_layout", None)
+        return case
+
+    return _s()
+
+
+@subcheck("C04", "half_precision_lm", _half_cases, 300, 5000,
+          doc="a language model whose parameters and next-token scores are bfloat16 / float16, searched for up to 14 steps: every "
+              "finite slot's reported log-probability == the sum of the model's own per-step (half-precision) log-softmax values, "
+              "accumulated exactly (the search must not accumulate in the model's reduced precision)",
+          required_classes=["steps_ge_8"])
+def _half_check(case):
+    import torch
+    from pydrobert.torch.modules import BeamSearch
+
+    spec = case["lm"]
+    V = spec["V"]
+    dt = getattr(torch, case["half"])
+    lm = _HalfLM(spec, dt)
+    search = BeamSearch(lm, case["width"], eos=case["eos"], finish_all_paths=case["finish_all"], pad_value=case.get("pad_value", -1))
+    conds = case["conds"]
+    y, lens, lp = search({"cond": torch.tensor(conds, dtype=torch.long)}, case["batch"], case["max_iters"])
+    if case["batch"] is None:
+        y, lens, lp = y.unsqueeze(1), lens.unsqueeze(0), lp.unsqueeze(0)
+    eos = _norm_eos(case["eos"], V)
+    rows = {}
+
+    def row(cond, toks):
+        key = (cond, declm.py_state(spec, toks))
+        if key not in rows:
+            logits = torch.tensor(declm.py_next_logits(spec, cond, toks), dtype=torch.float32).to(dt)
+            rows[key] = [float(x) for x in logits.log_softmax(-1).float()]
+        return rows[key]
+
+    cl = {"half_" + case["half"]}
+    for n in range(len(conds)):
+        prev = math.inf
+        for k in range(case["width"]):
+            sc, L = float(lp[n, k]), int(lens[n, k])
+            require(not math.isnan(sc) and sc <= prev + 1e-6, "scores not ordered best first / NaN", sc, prev)
+            prev = sc
+            if sc == NEG_INF:
+                continue
+            toks = [int(v) for v in y[:L, n, k]]
+            require(all(0 <= v < V for v in toks) and (eos is None or eos not in toks[:-1]), "invalid path", toks, None)
+            exp = math.fsum(row(conds[n], toks[:s])[toks[s]] for s in range(L))
+            require(abs(sc - exp) <= 1e-4 + 1e-6 * L * (1 + abs(exp)),
+                    "slot %d: reported log-probability is not the exact sum of the model's per-step log-probabilities over %d steps" % (k, L),
+                    sc, exp)
+            if L >= 8:
+                cl.add("steps_ge_8")
+    return Info(nontrivial="steps_ge_8" in cl, classes=sorted(cl))
+
+
+# ------------------------------------------------------------------ flat candidate indices beyond 2^24
+
+
+def _huge_cases(tier):
+    out = []
+    for Kp, V in ((129, 2 ** 17 + 1), (33, 2 ** 19 + 3), (3, 2 ** 23 + 5)):
+        for seed in (1, 2):
+            out.append({"Kp": Kp, "V": V, "seed": seed, "width": 12})
+    return out if tier == "thorough" else out[::2]
+
+
+@subcheck("C04", "advance_huge", _huge_cases, 0, 0, exhaustive=True, timeout_s=3000,
+          doc="beam_search_advance with old_width * V > 2^24 candidates: a handful of generated winning candidates (among them the last "
+              "vocabulary token of high-rank prefixes, i.e. flat indices just below a multiple of V beyond 2^24) must come back "
+              "with their own prefix, token, source index and exact score")
+def _huge_check(case):
+    import torch
+    from pydrobert.torch.functional import beam_search_advance
+
+    Kp, V, W, seed = case["Kp"], case["V"], case["width"], case["seed"]
+    lp_t = torch.full((1, Kp, V), -1000.0)
+    lp_prev = torch.zeros(1, Kp)                                                  # equal prefixes: candidate scores stay distinct
+    y_prev = torch.arange(Kp, dtype=torch.long).view(1, 1, Kp) % 7               # one token per prefix: k % 7
+    winners = {}
+    x = seed
+    for j in range(W):
+        x = (x * 1103515245 + 12345) % (2 ** 31)
+        k = Kp - 1 - (x % min(Kp, 5)) if j % 2 == 0 else x % Kp
+        v = V - 1 if j % 3 != 2 else (x // 7) % V
+        if (k, v) in winners:
+            continue
+        winners[(k, v)] = 100.0 - j * 0.5
+        lp_t[0, k, v] = winners[(k, v)]
+    exp = sorted(((s + float(lp_prev[0, k]), k, v) for (k, v), s in winners.items()), reverse=True)
+    y_next, lens, lp_next, src = beam_search_advance(lp_t, W, lp_prev, y_prev)
+    n = len(exp)
+    beyond = False
+    for r, (s, k, v) in enumerate(exp[:W]):
+        got = (float(lp_next[0, r]), int(src[0, r]), int(y_next[-1, 0, r]), int(y_next[0, 0, r]))
+        require(abs(got[0] - s) <= 1e-3 and got[1] == k and got[2] == v and got[3] == k % 7,
+                "rank %d: (score, source, new token, prefix token) of the candidate at flat index %d" % (r, k * V + v), list(got),
+                [s, k, v, k % 7])
+        if k * V + v >= 2 ** 24:
+            beyond = True
+    return Info(nontrivial=beyond, classes=["flat_index_beyond_2^24"] if beyond else [])
